@@ -1,5 +1,6 @@
 """C04 — adaptors are pointwise, lock-step, one pull per output (DESIGN.md §6 C04)."""
 from vlib.vunit import run_unit, build_search
+from vlib.kani import run_kani
 
 ADAPTORS = ['RefMut', 'Map', 'ZipMap', 'AddAmp', 'MulAmp', 'ScaleAmp', 'ScaleAmpPerChannel', 'OffsetAmp',
             'OffsetAmpPerChannel', 'ClipAmp', 'Inspect', 'Delay']
@@ -21,11 +22,23 @@ def common(ctx):
                        'each extracted impl is proved to meet it for arbitrary sources meeting it (composition covers any nesting)')
 
 
+def frame_contracts(ctx):
+    """The Frame-operation contracts the Verus unit ASSUMES (T2) are discharged on the real dasp_frame / dasp_sample code by the
+    C03 check for every format and width; a representative slice of it (2-channel i16 and u8 frames: map, zip_map, from_fn,
+    from_samples, channels, offset/add, scale/mul) is re-run here so that a change in those crates that breaks THIS property
+    is reported by this check too."""
+    ctx.notes.append('assumed Frame-operation contracts re-discharged here for [i16; 2] and [u8; 2] (Kani sample_frame c03_q_*_i16_n2 / _u8_n2); '
+                     'all formats and widths: C03')
+    kinds = ['channels', 'consts_from_fn', 'from_samples', 'map', 'offset_add_signed', 'scale_mul_float', 'zip_map']
+    run_kani(ctx, 'sample_frame', harness=['c03_q_%s_%s_n2' % (k, f) for k in kinds for f in ('i16', 'u8')], harness_timeout='10m')
+
+
 def run(ctx):
     common(ctx)
     ctx.add_assumption('ClipAmp: negated threshold representable (thresh.neg_req()) and the signed companion type obeys the '
                        'vstd specs of <, >, unary - (side conditions of the property itself)')
     run_unit(ctx, 'signal', only_labels=LABELS)
+    frame_contracts(ctx)
 
 
 def prepare_replay(rec):
